@@ -12,6 +12,8 @@ package storage
 // file-system implementation below is verified against the same statements).
 //@ contract BucketHandle.Object
 //@   ensures result != nil
+//@ contract BucketHandle.Objects
+//@   ensures result != nil
 //@ contract ObjectHandle.NewWriter
 //@   ensures result1 == nil ==> result0 != nil
 //@ contract ObjectHandle.NewReader
@@ -48,6 +50,7 @@ package storage
 
 //@ contract (*FSBucket).Objects
 //@   requires b != nil
+//@   ensures result != nil
 //@   modifies nothing
 
 // The iterator yields names[index] and advances; it is done exactly when the
